@@ -7,7 +7,7 @@ use tari_bulletproofs_plus::range_proof::{RangeProof, VerifyAction};
 use crate::{
     eng::{Engine, F, R},
     gen::{cfg_strategy, lattice, triple_strategy, Cfg, CtxSpec, SeedSpec, Triple, TripleSpec, BITS, CTX_LABELS},
-    mutate::{Applied, PointHow, PromHow, ProofMut, PubStatement, ScalarHow, StMut, StPointHow},
+    mutate::{Applied, CompEdit, CompHow, PointHow, PromHow, ProofMut, PubStatement, ScalarHow, StMut, StPointHow},
     refimpl::Proof,
     runner::{guarded, sub, CaseLog, PropertyDef, RunCtx, Sub, Tier},
 };
@@ -93,6 +93,25 @@ pub fn alterations(cfg: &Cfg, rounds: usize, ctx: &CtxSpec, rep: u64) -> Vec<Alt
                 k: frac_of(k, cfg.ext),
                 how,
             }));
+        }
+    }
+    // the compressed copies a statement carries next to its commitments and commitment generators, rewritten by hand (public
+    // fields): they are components of the triple like any other
+    for j in 0..cfg.m.min(4) {
+        let fj = frac_of(j, cfg.m);
+        for how in [CompHow::FlipBit(255), CompHow::FlipBit((rep >> (8 + j)) as u8), CompHow::Fresh(rep ^ j as u64)] {
+            v.push(Alt::S(StMut::CompressedCopy(CompEdit::Commitment { j: fj, how })));
+        }
+    }
+    for what in 0..4u8 {
+        v.push(Alt::S(StMut::CompressedCopy(CompEdit::List(what))));
+    }
+    for how in [CompHow::FlipBit(255), CompHow::FlipBit((rep >> 16) as u8), CompHow::Fresh(rep ^ 0x77)] {
+        v.push(Alt::S(StMut::CompressedCopy(CompEdit::H(how))));
+    }
+    for k in 0..cfg.ext {
+        for how in [CompHow::FlipBit(255), CompHow::FlipBit((rep >> (20 + k)) as u8), CompHow::Fresh(rep ^ (0x99 + k as u64))] {
+            v.push(Alt::S(StMut::CompressedCopy(CompEdit::G { k: frac_of(k, cfg.ext), how })));
         }
     }
     // transcript initial state
@@ -202,6 +221,13 @@ pub fn oracle<E: Engine>(_ctx: &RunCtx, spec: &BindSpec, log: &mut CaseLog) -> R
             } else if r.is_ok() {
                 return Err(format!("altered triple ACCEPTED in {:?}: alteration {:?}", act, alt));
             }
+        }
+        // a batch shares its commitment generators, and the verifier reads them (compressed copies included) from the first member
+        // after checking that all members hold the same POINTS: the hand-edited compressed copy of a generator in a later
+        // member is never looked at, so only the stand-alone verification above applies to it
+        if matches!(alt, Alt::S(StMut::CompressedCopy(CompEdit::H(_))) | Alt::S(StMut::CompressedCopy(CompEdit::G { .. }))) {
+            tested += 1;
+            continue;
         }
         // same alteration inside a batch, altered member last
         let r = guarded(|| {
